@@ -52,6 +52,19 @@ Proof.
   f_equal. lia.
 Qed.
 
+(* the same for a decode that was cut [c] bytes before the end of the content *)
+Lemma content_of_image_cut (f : Z -> Z) (hist R : list Z) r c :
+  out_at f r (skipn c R) ->
+  Z.of_nat (length R) = Z.of_nat (length hist) + r + Z.of_nat c -> 0 <= r ->
+  forall i, 0 <= i < r -> f i = nth (Z.to_nat i) (skipn (length hist) (rev R)) 0.
+Proof.
+  intros O Hl Hr i Hi. rewrite nth_skipn_Z.
+  rewrite rev_nth by lia.
+  assert (E : f i = nth (Z.to_nat (r - 1 - i)) (skipn c R) 0).
+  { rewrite <- (O (Z.to_nat (r - 1 - i))) by (rewrite skipn_length; lia). f_equal. lia. }
+  rewrite E, nth_skipn_Z. f_equal. lia.
+Qed.
+
 Section Top.
   Variables (dict : ddict) (srcm : mem) (dictm : mem) (dictSize : Z).
   Variables (lowPrefix rlow : Z).
@@ -133,6 +146,48 @@ Section Top.
         * exact Hout.
         * apply apply_seqs_length in Eapp. rewrite rev_length in Eapp. rewrite app_length, rev_length.
           rewrite total_len_last. unfold byte in *. lia.
+        * lia.
+  Qed.
+  (* Partial decoding by the safe loop: output end [oend] = min(target, capacity), [k] bytes of
+     anything may follow the block in the source when the decode stops inside the content. *)
+  Theorem dec_generic_partial_safe_loop (B hist D : list Z) oend k m0 :
+    strict_valid hist B = Some D -> bytes B -> src_at srcm 0 B ->
+    out_at (get m0) 0 (rev hist) -> Z.of_nat (length hist) <= - lowPrefix ->
+    0 <= oend -> 0 <= k -> (k = 0 \/ oend <= Z.of_nat (length D)) ->
+    let '(r, m, _) := dec_generic false true dict srcm (Z.of_nat (length B) + k) oend lowPrefix rlow dictm dictSize m0 in
+    r = Z.min oend (Z.of_nat (length D)) /\ forall i, 0 <= i < r -> get m i = nth (Z.to_nat i) D 0.
+  Proof.
+    intros Hv Hb Hs Hh Hhl Hoe Hk Htr.
+    unfold strict_valid in Hv.
+    destruct (parse_block B) as [[ss last]|] eqn:Ep; [|discriminate].
+    destruct (end_ok ss last) eqn:Eend; [|discriminate].
+    pose proof (run_seqs_length _ _ _ _ Hv) as HlenD.
+    unfold run_seqs in Hv. unfold byte in *. destruct (apply_seqs (rev hist) ss) as [rout'|] eqn:Eapp; [|discriminate].
+    injection Hv as HD.
+    unfold parse_block in Ep.
+    pose proof (parse_seqs_len _ _ _ _ Ep) as HlenB.
+    unfold dec_generic.
+    assert (E1 : (oend <? 0) = false) by lia. rewrite E1.
+    destruct (oend =? 0) eqn:E0.
+    - split; [lia|]. intros i Hi. lia.
+    - assert (E2 : (Z.of_nat (length B) + k =? 0) = false) by (unfold byte in *; lia). rewrite E2.
+      cbn [andb].
+      pose proof (run_sim_part true dict srcm (Z.of_nat (length B) + k) oend lowPrefix rlow dictm dictSize HlowP Hds
+                    _ _ _ _ Ep (rev hist) rout' (mkD 0 0 m0 true) (Z.to_nat (Z.of_nat (length B) + k) + 2) eq_refl Eapp Eend Hb) as HR.
+      cbn [ip op dm] in HR.
+      destruct HR as (s' & Hrun & Hout); try lia.
+      + exact Hs.
+      + intros j Hj. rewrite vget_hi by (rewrite rev_length in Hj; lia). apply Hh. exact Hj.
+      + rewrite rev_length. lia.
+      + rewrite Hrun. rewrite <- HlenD. split; [lia|].
+        intros i Hi. rewrite <- HD.
+        rewrite <- (vget_hi lowPrefix dictm dictSize (dm s') i) by lia.
+        apply content_of_image_cut with (r := Z.min oend (0 + total_len ss last))
+                                        (c := Z.to_nat (0 + total_len ss last - Z.min oend (0 + total_len ss last))).
+        * exact Hout.
+        * apply apply_seqs_length in Eapp. rewrite rev_length in Eapp. rewrite app_length, rev_length.
+          pose proof (total_len_last ss last) as Htl. unfold byte in *. lia.
+        * lia.
         * lia.
   Qed.
 End Top.
